@@ -12,7 +12,8 @@ Open Scope R_scope.
 Lemma dr_pos dt wx wy wz w x y z : 0 < w*w+x*x+y*y+z*z -> 0 < qnorm2 (dr_step dt wx wy wz [w;x;y;z]).
 Proof. intros H. rewrite dr_step_norm2. unfold_rot. nra. Qed.
 
-Lemma ekf_f_val dt wx wy wz w x y z : C08_ekf_f_R dt wx wy wz w x y z = Val (dr_step dt wx wy wz [w;x;y;z]).
+(* EKF.f, for every state covariance P = p I carried by the filter object *)
+Lemma ekf_f_val dt wx wy wz w x y z p : C08_ekf_f_R dt wx wy wz w x y z p = Val (dr_step dt wx wy wz [w;x;y;z]).
 Proof. cbv beta delta [C08_ekf_f_R]. cbv zeta. unfold dr_step. unfold_q. val_eq; field. Qed.
 
 (* a plain division by the norm (no zero test) *)
@@ -28,38 +29,81 @@ Proof.
   eapply normalize_plain; [ | | | | reflexivity]; unfold dr_step; unfold_q; field.
 Qed.
 
-(* Mahony.updateIMU with a null accelerometer sample *)
-Lemma mahony_val dt wx wy wz w x y z : w*w+x*x+y*y+z*z = 1 -> wx*wx+wy*wy+wz*wz <> 0 ->
-  C08_mahony_R dt wx wy wz w x y z = Val (qnormalize (dr_step dt wx wy wz [w;x;y;z])).
-Proof.
-  intros H NZ. cbv beta delta [C08_mahony_R].
-  step. match goal with E : _ = sqrt _ |- _ => rewrite H, sqrt_1 in E; subst end. gate_01. rewrite ?div_1.
-  rewrite (sqrt_gate_nz _ _ _ _ (wsq_pos _ _ _ NZ)). cbv zeta.
-  rewrite (eta4 (dr_step dt wx wy wz [w;x;y;z]) eq_refl).
-  eapply normalize_plain; [ | | | | reflexivity]; unfold dr_step; unfold_q; field.
-Qed.
+(* the same with three further outputs appended (the carried state returned next to the attitude) *)
+Lemma normalize_plain7 (a b c d a' b' c' d' s u0 u1 u2 : R) : a = a' -> b = b' -> c = c' -> d = d' ->
+  s = sqrt (a*a+b*b+c*c+d*d) -> Val [a / s; b / s; c / s; d / s; u0; u1; u2] = Val (qnormalize [a';b';c';d'] ++ [u0; u1; u2]).
+Proof. intros -> -> -> -> ->. unfold qnormalize. unfold_rot. cbn [app]. val_eq; unfold Rdiv; ring. Qed.
+
+(* Mahony.updateIMU / updateMARG with a null accelerometer sample, for EVERY carried bias estimate b and gains k_P, k_I
+   (and every magnetometer sample): the step does not depend on them, and the bias is left unchanged *)
+Ltac mahony_tac H NZ dt wx wy wz w x y z :=
+  step; match goal with E : _ = sqrt _ |- _ => rewrite H, sqrt_1 in E; subst end; gate_01; rewrite ?div_1;
+  rewrite (sqrt_gate_nz _ _ _ _ (wsq_pos _ _ _ NZ)); cbv zeta;
+  rewrite (eta4 (dr_step dt wx wy wz [w;x;y;z]) eq_refl);
+  eapply normalize_plain7; [ | | | | reflexivity]; unfold dr_step; unfold_q; field.
+Lemma mahony_val dt wx wy wz w x y z b0 b1 b2 kp ki : w*w+x*x+y*y+z*z = 1 -> wx*wx+wy*wy+wz*wz <> 0 ->
+  C08_mahony_R dt wx wy wz w x y z b0 b1 b2 kp ki = Val (qnormalize (dr_step dt wx wy wz [w;x;y;z]) ++ [b0; b1; b2]).
+Proof. intros H NZ. cbv beta delta [C08_mahony_R]. mahony_tac H NZ dt wx wy wz w x y z. Qed.
+Lemma mahony_marg_val dt wx wy wz w x y z b0 b1 b2 kp ki m0 m1 m2 : w*w+x*x+y*y+z*z = 1 -> wx*wx+wy*wy+wz*wz <> 0 ->
+  C08_mahony_marg_R dt wx wy wz w x y z b0 b1 b2 kp ki m0 m1 m2 = Val (qnormalize (dr_step dt wx wy wz [w;x;y;z]) ++ [b0; b1; b2]).
+Proof. intros H NZ. cbv beta delta [C08_mahony_marg_R]. mahony_tac H NZ dt wx wy wz w x y z. Qed.
 
 (* Madgwick.updateIMU with a null accelerometer sample: the sum q + qDot dt passes through the normalising Quaternion
    constructor and is then divided by its (unit) norm once more *)
-Lemma madgwick_val dt wx wy wz w x y z : w*w+x*x+y*y+z*z = 1 -> wx*wx+wy*wy+wz*wz <> 0 ->
-  C08_madgwick_R dt wx wy wz w x y z = Val (qnormalize (dr_step dt wx wy wz [w;x;y;z])).
+(* for EVERY filter gain carried by the object *)
+Lemma madgwick_val dt wx wy wz w x y z gain : w*w+x*x+y*y+z*z = 1 -> wx*wx+wy*wy+wz*wz <> 0 ->
+  C08_madgwick_R dt wx wy wz w x y z gain = Val (qnormalize (dr_step dt wx wy wz [w;x;y;z])).
 Proof.
   intros H NZ. assert (P : 0 < qnorm2 (dr_step dt wx wy wz [w;x;y;z])) by (apply dr_pos; lra).
   cbv beta delta [C08_madgwick_R].
   step. match goal with E : _ = sqrt _ |- _ => rewrite H, sqrt_1 in E; subst end. gate_01. rewrite ?div_1.
   rewrite (sqrt_gate_nz _ _ _ _ (wsq_pos _ _ _ NZ)).
-  cbv zeta. set (D := dr_step dt wx wy wz [w;x;y;z]) in *.
-  match goal with |- context [Req_EM_T 0 (sqrt ?e0)] => set (N2 := e0) end.
-  assert (EN : N2 = qnorm2 D) by (unfold N2, D, dr_step; unfold_q; field).
-  assert (PN : 0 < N2) by lra.
-  rewrite (sqrt_gate_nz _ _ _ _ PN).
-  assert (S0 : 0 < sqrt N2) by (apply sqrt_lt_R0; exact PN).
-  assert (SQ : sqrt N2 * sqrt N2 = N2) by (apply sqrt_sqrt; lra).
-  set (s := sqrt N2) in *.
-  match goal with |- context [sqrt ?e1] =>
-    assert (U : e1 = 1) by (transitivity (N2 / (s * s)); [unfold N2; field; lra | rewrite SQ; field; lra]);
-    rewrite U, sqrt_1, !div_1 end.
-  unfold qnormalize. rewrite <- EN. fold s. unfold D, dr_step. unfold_q. val_eq; field; lra.
+  cbv zeta.
+  (* the sum q + qDot dt may or may not pass through the normalising (and zero-testing) Quaternion constructor before the
+     final division by the norm, depending on the operand order in the source: both shapes are accepted *)
+  first
+  [ solve [ rewrite (eta4 (dr_step dt wx wy wz [w;x;y;z]) eq_refl);
+            eapply normalize_plain; [ | | | | reflexivity]; unfold dr_step; unfold_q; field ]
+  | set (D := dr_step dt wx wy wz [w;x;y;z]) in *;
+    match goal with |- context [Req_EM_T 0 (sqrt ?e0)] => set (N2 := e0) end;
+    assert (EN : N2 = qnorm2 D) by (unfold N2, D, dr_step; unfold_q; field);
+    assert (PN : 0 < N2) by lra;
+    rewrite (sqrt_gate_nz _ _ _ _ PN);
+    assert (S0 : 0 < sqrt N2) by (apply sqrt_lt_R0; exact PN);
+    assert (SQ : sqrt N2 * sqrt N2 = N2) by (apply sqrt_sqrt; lra);
+    set (s := sqrt N2) in *;
+    match goal with |- context [sqrt ?e1] =>
+      assert (U : e1 = 1) by (transitivity (N2 / (s * s)); [unfold N2; field; lra | rewrite SQ; field; lra]);
+      rewrite U, sqrt_1, !div_1 end;
+    unfold qnormalize; rewrite <- EN; fold s; unfold D, dr_step; unfold_q; val_eq; field; lra ].
+Qed.
+(* Madgwick.updateMARG with a null accelerometer and a non-zero magnetometer sample (a zero one delegates to updateIMU) *)
+Lemma madgwick_marg_val dt wx wy wz w x y z gain m0 m1 m2 : w*w+x*x+y*y+z*z = 1 -> wx*wx+wy*wy+wz*wz <> 0 ->
+  m0*m0+m1*m1+m2*m2 <> 0 ->
+  C08_madgwick_marg_R dt wx wy wz w x y z gain m0 m1 m2 = Val (qnormalize (dr_step dt wx wy wz [w;x;y;z])).
+Proof.
+  intros H NZ MZ. assert (P : 0 < qnorm2 (dr_step dt wx wy wz [w;x;y;z])) by (apply dr_pos; lra).
+  cbv beta delta [C08_madgwick_marg_R].
+  step. match goal with E : _ = sqrt _ |- _ => rewrite H, sqrt_1 in E; subst end. gate_01. rewrite ?div_1.
+  rewrite (sqrt_gate_nz _ _ _ _ (wsq_pos _ _ _ NZ)). rewrite (sqrt_gate_nz _ _ _ _ (wsq_pos _ _ _ MZ)).
+  cbv zeta.
+  (* the sum q + qDot dt may or may not pass through the normalising (and zero-testing) Quaternion constructor before the
+     final division by the norm, depending on the operand order in the source: both shapes are accepted *)
+  first
+  [ solve [ rewrite (eta4 (dr_step dt wx wy wz [w;x;y;z]) eq_refl);
+            eapply normalize_plain; [ | | | | reflexivity]; unfold dr_step; unfold_q; field ]
+  | set (D := dr_step dt wx wy wz [w;x;y;z]) in *;
+    match goal with |- context [Req_EM_T 0 (sqrt ?e0)] => set (N2 := e0) end;
+    assert (EN : N2 = qnorm2 D) by (unfold N2, D, dr_step; unfold_q; field);
+    assert (PN : 0 < N2) by lra;
+    rewrite (sqrt_gate_nz _ _ _ _ PN);
+    assert (S0 : 0 < sqrt N2) by (apply sqrt_lt_R0; exact PN);
+    assert (SQ : sqrt N2 * sqrt N2 = N2) by (apply sqrt_sqrt; lra);
+    set (s := sqrt N2) in *;
+    match goal with |- context [sqrt ?e1] =>
+      assert (U : e1 = 1) by (transitivity (N2 / (s * s)); [unfold N2; field; lra | rewrite SQ; field; lra]);
+      rewrite U, sqrt_1, !div_1 end;
+    unfold qnormalize; rewrite <- EN; fold s; unfold D, dr_step; unfold_q; val_eq; field; lra ].
 Qed.
 
 Lemma qnormalize_conj w x y z : qnormalize (qconj [w;x;y;z]) = qconj (qnormalize [w;x;y;z]).
@@ -70,10 +114,36 @@ Qed.
 
 (* AQUA.updateIMU with a null accelerometer sample holds the conjugate attitude: its step is the conjugate of the
    common step applied to the conjugate.  (AQUA does not normalise its input, so q need only be non-zero.) *)
-Lemma aqua_val dt wx wy wz w x y z : 0 < w*w+x*x+y*y+z*z -> wx*wx+wy*wy+wz*wz <> 0 ->
-  C08_aqua_R dt wx wy wz w x y z = Val (qconj (qnormalize (dr_step dt wx wy wz (qconj [w;x;y;z])))).
-Proof.
-  intros H NZ. cbv beta delta [C08_aqua_R]. rewrite (sqrt_gate_nz _ _ _ _ (wsq_pos _ _ _ NZ)). cbv zeta.
+(* for EVERY alpha, beta, threshold carried by the object, adaptive gain off or on, IMU and MARG entry points *)
+Lemma aqua_val dt wx wy wz w x y z alpha beta thr : 0 < w*w+x*x+y*y+z*z -> wx*wx+wy*wy+wz*wz <> 0 ->
+  C08_aqua_R dt wx wy wz w x y z alpha beta thr = Val (qconj (qnormalize (dr_step dt wx wy wz (qconj [w;x;y;z])))).
+Proof. intros H NZ. cbv beta delta [C08_aqua_R]. rewrite (sqrt_gate_nz _ _ _ _ (wsq_pos _ _ _ NZ)). cbv zeta.
+  set (D := dr_step dt wx wy wz (qconj [w;x;y;z])).
+  assert (P : 0 < qnorm2 (qconj D)).
+  { replace (qnorm2 (qconj D)) with (qnorm2 D) by (unfold D, dr_step; unfold_q; ring).
+    unfold D. rewrite dr_step_norm2. unfold_rot. nra. }
+  rewrite (eta4 D eq_refl), <- qnormalize_conj. fold (e D 0) (e D 1) (e D 2) (e D 3).
+  change (qconj [e D 0; e D 1; e D 2; e D 3]) with [e D 0; - e D 1; - e D 2; - e D 3].
+  eapply normalize_val; [ | | | | | reflexivity].
+  5: { revert P. rewrite (eta4 D eq_refl). unfold_rot. auto. }
+  all: unfold D, dr_step; unfold_q; field.
+Qed.
+Lemma aqua_adaptive_val dt wx wy wz w x y z alpha beta thr : 0 < w*w+x*x+y*y+z*z -> wx*wx+wy*wy+wz*wz <> 0 ->
+  C08_aqua_adaptive_R dt wx wy wz w x y z alpha beta thr = Val (qconj (qnormalize (dr_step dt wx wy wz (qconj [w;x;y;z])))).
+Proof. intros H NZ. cbv beta delta [C08_aqua_adaptive_R]. rewrite (sqrt_gate_nz _ _ _ _ (wsq_pos _ _ _ NZ)). cbv zeta.
+  set (D := dr_step dt wx wy wz (qconj [w;x;y;z])).
+  assert (P : 0 < qnorm2 (qconj D)).
+  { replace (qnorm2 (qconj D)) with (qnorm2 D) by (unfold D, dr_step; unfold_q; ring).
+    unfold D. rewrite dr_step_norm2. unfold_rot. nra. }
+  rewrite (eta4 D eq_refl), <- qnormalize_conj. fold (e D 0) (e D 1) (e D 2) (e D 3).
+  change (qconj [e D 0; e D 1; e D 2; e D 3]) with [e D 0; - e D 1; - e D 2; - e D 3].
+  eapply normalize_val; [ | | | | | reflexivity].
+  5: { revert P. rewrite (eta4 D eq_refl). unfold_rot. auto. }
+  all: unfold D, dr_step; unfold_q; field.
+Qed.
+Lemma aqua_marg_val dt wx wy wz w x y z alpha beta thr m0 m1 m2 : 0 < w*w+x*x+y*y+z*z -> wx*wx+wy*wy+wz*wz <> 0 ->
+  C08_aqua_marg_R dt wx wy wz w x y z alpha beta thr m0 m1 m2 = Val (qconj (qnormalize (dr_step dt wx wy wz (qconj [w;x;y;z])))).
+Proof. intros H NZ. cbv beta delta [C08_aqua_marg_R]. rewrite (sqrt_gate_nz _ _ _ _ (wsq_pos _ _ _ NZ)). cbv zeta.
   set (D := dr_step dt wx wy wz (qconj [w;x;y;z])).
   assert (P : 0 < qnorm2 (qconj D)).
   { replace (qnorm2 (qconj D)) with (qnorm2 D) by (unfold D, dr_step; unfold_q; ring).
